@@ -29,8 +29,8 @@ def judge_repro(rec, prog, info):
     if want and want != [(want[0] + i) % (1 << 64) for i in range(len(want))]:
         return "generator counters handed out (in trace order) are not c0, c0+1, ...: %s" % want[:10]
     for tag, rest in rec["ev"]:
-        if tag == "S" and (" LD:gen" in rest or " ST:gen" in rest):
-            return "the generator counter is read or written by a separate load/store (%s): not one atomic step" % rest
+        if tag == "S" and " ST:gen" in rest:
+            return "the generator counter is overwritten by a plain store (%s)" % rest
     return None
 
 
